@@ -216,9 +216,20 @@ def tests_of(repo, f, keep=()):
     from mmsa import inline
     texpr = inline.inline_expr(f, n.expr)
     iv, others = search.test_interval(repo, f, texpr)
+    at_ = n
+    if iv is None:
+      # `out_of_range = v > hi or v < lo; if out_of_range: continue`: the test is the (single) definition of the flag
+      core_, neg_ = au.strip_not(n.expr)
+      d_ = ctx.rd.single_def(n, core_.id) if isinstance(core_, ast.Name) else None
+      if d_ is not None and d_.how == 'assign' and isinstance(d_.value, (ast.BoolOp, ast.Compare, ast.UnaryOp)) and core_.id not in ctx.rd.mutated:
+        t2_ = dataflow.clone(d_.value)
+        if neg_:
+          t2_ = ast.UnaryOp(op=ast.Not(), operand=t2_)
+        iv, others = search.test_interval(repo, f, inline.inline_expr(f, ast.copy_location(t2_, d_.value)))
+        at_ = d_.node
     if iv is None:
       continue
-    ivx = expand_iv(ctx.rd, n, iv, keep)
+    ivx = expand_iv(ctx.rd, at_, iv, keep)
     q = classify_quantity(norm(ivx.v))
     # the limits say which constraint a test belongs to: a test against the limits of kappa on some other quantity is a
     # (wrong) kappa test, not a test of whatever its value happens to look like
@@ -287,6 +298,22 @@ def closure_mentions(repo, f, kappa):
       continue          # anchors of the pinned tree have known roles; only helpers can hide an enforcement
     if any((isinstance(x, ast.Attribute) and x.attr == kappa) or (isinstance(x, ast.Constant) and x.value == kappa) for x in ast.walk(g_.node)):
       out.append(q)
+  return out
+
+
+def table_mentions(f, kappa):
+  """Class-level and module-level assignments of the module of f (tables of constraints, strategy registries) that name
+  the parameter kappa as a string or an attribute."""
+  out = []
+  scopes = [f.module.tree.body]
+  if f.cls is not None:
+    scopes.append(f.cls.node.body)
+  for body in scopes:
+    for st in body:
+      if isinstance(st, (ast.Assign, ast.AnnAssign)) and st.value is not None \
+          and any((isinstance(x, ast.Attribute) and x.attr == kappa) or (isinstance(x, ast.Constant) and x.value == kappa) for x in ast.walk(st.value)):
+        tg = st.targets[0] if isinstance(st, ast.Assign) else st.target
+        out.append(norm(tg))
   return out
 
 
@@ -960,6 +987,12 @@ def run_search(repo, rep, name, dwc):
       if consulted or (dwc_calls and (dwc.get(kappa) is not None or kappa in dwc.get('#incomplete', {}))):
         rep.undecided('R2/must-pass', '%s: %s' % (name, kappa),
                       '%s is consulted in %s%s but no test guarding the push on (%s, %s) was recognised' % (kappa, name, ' (through design_within_constraints)' if dwc_calls else '', T, C),
+                      f.loc(P_.push_call))
+        result[kappa] = ('undecided', None)
+        continue
+      tables_ = table_mentions(f, kappa)
+      if tables_:
+        rep.undecided('R2/must-pass', '%s: %s' % (name, kappa), '%s is named in the table %s of the module: a table-driven enforcement is not followed' % (kappa, ', '.join(tables_)[:80]),
                       f.loc(P_.push_call))
         result[kappa] = ('undecided', None)
         continue
